@@ -74,6 +74,23 @@ def _found(case, kind, detail, model):
             "at": "hold-all body", "occurrences": 1, "history": [], "extra": {"case": case, "model": model}}
 
 
+def _run_slices(cmd_of, cwd, env, wdir, tag):
+    """start all slices with stdout/stderr in files (a pipe would block a slice after 64 kB of CASE lines); -> [(returncode, out, err)]"""
+    d = os.path.join(wdir, "alias")
+    os.makedirs(d, exist_ok=True)
+    procs = []
+    for i in range(SLICES):
+        fo, fe = open(os.path.join(d, f"{tag}_{i}.out"), "w"), open(os.path.join(d, f"{tag}_{i}.err"), "w")
+        procs.append((subprocess.Popen(cmd_of(i), cwd=cwd, env=env, stdout=fo, stderr=fe), fo, fe))
+    res = []
+    for p, fo, fe in procs:
+        p.wait()
+        fo.close()
+        fe.close()
+        res.append((p.returncode, open(fo.name).read(), open(fe.name).read()[-200000:]))
+    return res
+
+
 def run_native(tier, seed, wdir):
     t0 = time.time()
     code, out = _native_build()
@@ -81,17 +98,15 @@ def run_native(tier, seed, wdir):
         return {"engine": "alias", "machinery_error": "the alias crate does not build: " + out[-1500:], "found": []}
     va = os.path.join(ROOT, "target", "alias", "debug", "va")
     total, per = _counts(tier)
-    procs = [subprocess.Popen([va, "run", tier, str(i), str(SLICES)], stdout=subprocess.PIPE, stderr=subprocess.PIPE, text=True) for i in range(SLICES)]
     found, done = [], 0
-    for p in procs:
-        o, e = p.communicate()
+    for rc, o, e in _run_slices(lambda i: [va, "run", tier, str(i), str(SLICES)], None, None, wdir, "native"):
         c = _classify(o, e)
         if c is None:
             done += int(re.search(r"DONE cases=(\d+)", o).group(1))
             continue
         case = _last_case(e)
         if c[0] == "engine" or case is None:
-            return {"engine": "alias", "machinery_error": f"alias body runner exited with {p.returncode}: {c[1][-600:]}", "found": []}
+            return {"engine": "alias", "machinery_error": f"alias body runner exited with {rc}: {c[1][-600:]}", "found": []}
         found.append(_found(case, c[0], c[1], "native"))
     spec = {"engine": "alias", "mode": "native", "tier": tier}
     return {"engine": "alias", "run": f"hold-all-references bodies, native build ({tier} case list)", "spec": spec, "evaluations": done if not found else total, "distinct_outcomes": total,
@@ -126,20 +141,14 @@ def run_miri(tier, seed, wdir):
         return {"engine": "alias", "machinery_error": "the alias crate does not build under miri: " + b.stdout[-1500:], "found": []}
     found, done = [], 0
     for model in models:
-        procs = [subprocess.Popen(["cargo", "+nightly", "miri", "run", "--offline", "--", "run", tier, str(i), str(SLICES)], cwd=CRATE, env=_env(MODELS[model]),
-                                  stdout=subprocess.PIPE, stderr=subprocess.PIPE, text=True) for i in range(SLICES)]
-        for p in procs:
-            o, e = p.communicate()
+        for rc, o, e in _run_slices(lambda i: ["cargo", "+nightly", "miri", "run", "--offline", "--", "run", tier, str(i), str(SLICES)], CRATE, _env(MODELS[model]), wdir, model):
             c = _classify(o, e)
             if c is None:
                 done += int(re.search(r"DONE cases=(\d+)", o).group(1))
                 continue
             case = _last_case(e)
             if c[0] == "engine" or case is None:
-                for q in procs:
-                    if q.poll() is None:
-                        q.kill()
-                return {"engine": "alias", "machinery_error": f"miri run exited with {p.returncode} without a verdict: {c[1][-800:]}", "found": []}
+                return {"engine": "alias", "machinery_error": f"miri run exited with {rc} without a verdict: {c[1][-800:]}", "found": []}
             found.append(_found(case, c[0], c[1], model))
     spec = {"engine": "alias", "mode": "miri", "tier": tier, "models": models}
     return {"engine": "alias", "run": f"hold-all-references bodies executed by Miri ({', '.join(models)}; {tier} case list)", "spec": spec,
@@ -183,7 +192,7 @@ def replay(path):
 if __name__ == "__main__":
     import sys
     tier = sys.argv[2] if len(sys.argv) > 2 else "quick"
-    res = (run_miri if sys.argv[1] == "miri" else run_native)(tier, 0, "/tmp")
+    res = (run_miri if sys.argv[1] == "miri" else run_native)(tier, 0, os.path.join(ROOT, ".work", "alias_selftest"))
     print({k: v for k, v in res.items() if k not in ("found", "samples")})
     for f in res["found"]:
         print("FOUND", f["property"], f["site"], f["cond"])
